@@ -17,6 +17,7 @@ for s in $SEEDS; do
     C08) extra="C02 C08" ;;
   esac
   [ -n "$MATRIX_OWN_ONLY" ] && extra=""
+  [ -n "$MATRIX_EXTRA" ] && extra="$extra $MATRIX_EXTRA"
   checks=$(echo "$prop $extra" | tr ' ' '\n' | awk '!s[$0]++' | tr '\n' ' ')
   res=$(SEED_LINES=2 SEED_TIMEOUT=1500 ./scripts/try_seed.sh $d/patch.diff $TIER $checks 2>&1 | grep "^== ")
   echo "### $s ($prop)"; echo "$res"
